@@ -60,6 +60,10 @@ def choosers(n, rng):
         r = rng.random()
         if i == 0:
             out.append(('fifo',))
+        elif i == 1 and n >= 4:
+            out.append(('lifo',))
+        elif i == 2 and n >= 6:
+            out.append(('rr',))
         elif r < 0.55:
             out.append(('random', rng.randrange(1 << 30), rng.choice([0.3, 0.5, 0.7])))
         else:
@@ -70,6 +74,13 @@ def choosers(n, rng):
 
 def schedules(sc, n, rng):
     return [(sc, ch) for ch in choosers(n, rng)]
+
+
+def det_schedules(sc, n, rng):
+    """The three deterministic extremes (submitter first, workers first,
+    maximal interleaving) plus n random ones."""
+    return [(sc, ('fifo',)), (sc, ('lifo',)), (sc, ('rr',))] + \
+        [(sc, ch) for ch in choosers(n + 1, rng)[1:]]
 
 
 def s3_fault_sweep(sc, ncalls, rng, per=2, kinds=('client',), afters=(False, True)):
